@@ -71,6 +71,12 @@ func RunPlan(p *Plan, dir string, keepTrace bool) (res *Result) {
 	if resetPools != nil {
 		resetPools() // pooled objects of an earlier run of this process must not reach this one
 	}
+	if setRandSeed != nil {
+		setRandSeed(p.Seed)
+	}
+	if installGoHooks != nil {
+		installGoOnce.Do(func() { installGoHooks(lateStart) }) // in every run of the process alike
+	}
 	w = New(p.Cfg, dir)
 	for _, u := range p.Users {
 		w.IdP.AddUser(u.Email, u.Verified, u.Groups...)
